@@ -55,6 +55,8 @@ POLLUTERS = {
     'print.rebind': 'import builtins\n_p = builtins.print\ndef noisy(*a, **k):\n    _p("NOISY", *a)\nbuiltins.print = noisy\n',
     'import.hook': 'import builtins\ntry:\n    builtins.__import__ = None\nexcept Exception:\n    pass\n',
     'none.quiet': 'pass\n',
+    # classes derived from every built-in type that can be derived from, with attributes and methods of their own
+    'subclass.builtins': 'made = []\nfor B in (object, int, str, list, dict, tuple, Exception, ValueError, KeyError, BaseException, LookupError, float, set, bytes):\n    try:\n        class Leak(B):\n            secret = "P"\n            def reveal(self):\n                return leak_marker\n        made.append(Leak)\n    except Exception:\n        pass\nleak_marker = "P"\n',
     'os.environ': 'import os\nos.environ["VERIF_POLLUTED"] = "1"\n',
     # every dict / list found among the globals of every importable Go module gets an extra entry
     'mod.containers': MODLOOP + '''        if isinstance(v, dict):
@@ -109,6 +111,39 @@ print("checked", len(FS))
     'string.mod': 'import string\nprint(string.digits)\n',
     'ctxmod': 'import ctxmod\nprint(ctxmod.BASE, ctxmod.NAME, ctxmod.VALUE)\nprint(ctxmod.bump())\nprint(ctxmod.ident())\n',
     'import': 'import math\nimport sys\nprint(math.floor(2.5))\n',
+    # whatever a built-in type lets a program see about itself must not depend on what other contexts derived from it or hung on it
+    'type.introspection': '''NAMES = ["__subclasses__", "__dict__", "__bases__", "__base__", "__mro__", "mro", "__name__", "__qualname__", "__module__", "__doc__", "__subclasshook__", "__flags__", "__abstractmethods__",
+         "__weakref__", "__itemsize__", "__basicsize__", "__text_signature__", "__instancecheck__", "__subclasscheck__", "__class__", "__init_subclass__", "__sizeof__", "__reduce__", "__dir__"]
+def show(v):
+    if isinstance(v, (list, tuple, set)):
+        return "seq" + str(len(v))
+    if isinstance(v, dict):
+        return "map" + str(len(v))
+    if isinstance(v, (str, int, bool)):
+        return str(v)[:40]
+    if v is None:
+        return "None"
+    return "obj"
+for T in (object, int, str, list, dict, tuple, Exception, ValueError, KeyError, BaseException, LookupError, float, set, bytes, type, bool):
+    row = []
+    for n in NAMES:
+        try:
+            v = getattr(T, n)
+        except AttributeError:
+            row.append("-")
+            continue
+        except Exception:
+            row.append("!")
+            continue
+        r = show(v)
+        if r == "obj":
+            try:
+                r = "call:" + show(v())
+            except Exception:
+                r = "obj"
+        row.append(r)
+    print(" ".join(row))
+''',
     # how deep a context can recurse is its own business: other contexts recursing at the same time must not use up its allowance
     'deep.recursion': 'def d(n):\n    if n == 0:\n        t = 0\n        for i in range(400):\n            t += i\n        return t\n    return d(n - 1) + 1\nfor k in range(6):\n    print(d(700))\n',
     'recursion.limit': 'def probe(n):\n    try:\n        return probe(n + 1)\n    except RuntimeError:\n        return n\nprint(probe(0) == probe(0))\nprint(probe(0) > 800)\ndef d(n):\n    return 0 if n == 0 else d(n - 1)\nprint(d(600))\n',
